@@ -1277,7 +1277,7 @@ pub fn rules_lane(sink: &mut Sink, model: &mut crate::model::Model, r: &mut Rng,
     let (mut done, mut tries) = (0, 0);
     while done < n && tries < 6 * n {
         tries += 1;
-        let mut g = Gen { r: &mut *r, pool: &pool, insp_counter, force_delegate: false, multi_party: false, co_delegate: false, now: base_now(), reuse_keys: vec![], inner_insp_always: false };
+        let mut g = Gen { r: &mut *r, pool: &pool, insp_counter, force_delegate: false, multi_party: false, co_delegate: false, now: base_now(), reuse_keys: vec![], inner_insp_always: false, same_material_pair: false };
         let mut s = g.valid(0, true);
         insp_counter = g.insp_counter;
         s.now = base_now();
@@ -1390,6 +1390,7 @@ pub fn run_into(sink: &mut Sink, cfg: &Cfg, prop: &str, n: usize) {
     let mut insp_counter = 0usize;
     let mut alone: Vec<(Scenario, String, String)> = vec![];
     for i in 0..n {
+        let mut r = r.at(i as u64);
         let depth = match prop {
             "C15" => 1 + r.below(2),
             // (every third C08 scenario has a delegated step, so that the sub-layout faults apply)
@@ -1404,7 +1405,7 @@ pub fn run_into(sink: &mut Sink, cfg: &Cfg, prop: &str, n: usize) {
         // some of them with rules about the link files that a sibling's inspection leaves behind)
         let siblings = (prop == "C13" || prop == "C08") && i % 6 == 0;
         let allow_insp = matches!(prop, "C08") || siblings || r.chance(1, 4);
-        let mut g = Gen { r: &mut r, pool: &pool, insp_counter, force_delegate: prop == "C15" || ((prop == "C06" || prop == "C08" || prop == "C13") && i % 3 == 0), multi_party: (prop == "C07" && i % 3 != 0) || (prop == "C13" && i % 3 == 1), co_delegate: ((prop == "C15" || prop == "C07") && i % 3 == 0) || (prop == "C08" && i % 6 == 3), now: base_now(), reuse_keys: vec![], inner_insp_always: siblings };
+        let mut g = Gen { r: &mut r, pool: &pool, insp_counter, force_delegate: prop == "C15" || ((prop == "C06" || prop == "C08" || prop == "C13") && i % 3 == 0), multi_party: (prop == "C07" && i % 3 != 0) || (prop == "C13" && i % 3 == 1), co_delegate: ((prop == "C15" || prop == "C07") && i % 3 == 0) || (prop == "C08" && i % 6 == 3), now: base_now(), reuse_keys: vec![], inner_insp_always: siblings, same_material_pair: prop == "C13" && i % 5 == 2 };
         let mut s = g.valid(depth, allow_insp);
         insp_counter = g.insp_counter;
         // (C06: where the verifier sits - zones west and east of Greenwich, whole and fractional hours)
@@ -1438,6 +1439,13 @@ pub fn run_into(sink: &mut Sink, cfg: &Cfg, prop: &str, n: usize) {
         }
         let nfaults = if i % 5 == 0 { 0 } else { 1 };
         let base = s.clone();
+        // (C13, every fifth scenario: one key material under two ids among the functionaries - two differing
+        // links of threshold-1 steps, one under each id; which of them represents the step is decided by the
+        // key ids, on every run)
+        if prop == "C13" && i % 5 == 2 {
+            let kind = if i % 10 == 2 { "differing_links_t1" } else { "differing_links_t1_rules" };
+            let _ = inject_kind(prop, kind, &mut s, &mut r, &pool);
+        }
         for _ in 0..nfaults {
             if let Some(f) = inject(prop, &mut s, &mut r, &pool) {
                 s.faults.push(f);
@@ -1586,7 +1594,7 @@ pub fn run_into(sink: &mut Sink, cfg: &Cfg, prop: &str, n: usize) {
             // (a scenario that verifies under a pinned clock: some generated ones are meant not to)
             let mut found = None;
             for _ in 0..12 {
-                let mut g = Gen { r: &mut r, pool: &pool, insp_counter, force_delegate: false, multi_party: false, co_delegate: false, now: Utc::now(), reuse_keys: vec![], inner_insp_always: false };
+                let mut g = Gen { r: &mut r, pool: &pool, insp_counter, force_delegate: false, multi_party: false, co_delegate: false, now: Utc::now(), reuse_keys: vec![], inner_insp_always: false, same_material_pair: false };
                 let cand = g.valid(0, prop == "C08");
                 insp_counter = g.insp_counter;
                 *crate::e2e::REAL_CLOCK.lock().unwrap() = false;
@@ -1636,7 +1644,7 @@ pub fn run_into(sink: &mut Sink, cfg: &Cfg, prop: &str, n: usize) {
         let mut tries = 0;
         while crowds < (if cfg.thorough { 12 } else { 3 }) && tries < 60 {
             tries += 1;
-            let mut g = Gen { r: &mut r, pool: &pool, insp_counter: 0, force_delegate: true, multi_party: false, co_delegate: false, now: base_now(), reuse_keys: vec![], inner_insp_always: false };
+            let mut g = Gen { r: &mut r, pool: &pool, insp_counter: 0, force_delegate: true, multi_party: false, co_delegate: false, now: base_now(), reuse_keys: vec![], inner_insp_always: false, same_material_pair: false };
             let s = g.valid(3, false);
             // (how deep the chain of delegations of this scenario really is)
             fn depth(d: &SDir) -> usize {
